@@ -479,6 +479,10 @@ where
                 // indicate that the message successfully authenticated
                 // with that key.
                 context.tsig_key = Some(tsig_rr.key_name().to_owned());
+            } else {
+                // Any other record is ignored, but we must skip over
+                // it to get to the records that follow.
+                peek_rr.skip();
             }
         }
 
